@@ -6,14 +6,33 @@
             pipeline's own retire list [pipe_retire] for 8*fuel+8 cycles
      op 81: (81 state fuel)  -> the delayed-write-back reference machine (Proofs/FlagOffDwb.v [dwb_run]):
             how the run ended, final registers / output / exit code / lower memory, and its retire order
+     op 90: (90 codes)       -> the TOY lexer (Model/ToyLex.v) on a whole source text given as code points:
+            ((0 line...) | (1 ln) | (2)) and whether the text is in the lexer's stated domain
+     op 91: (91 tstate codes) -> ToySimulation.load_program on SOURCE TEXT: lexer + assembler [toy_load_text]:
+            (error option, state after the load) — no Python-side token conversion involved
    Every other request goes to [Main.dispatch]. *)
 From ArchSim Require Import Model.Base Model.Mem Model.Cache Model.Fmt Model.RV Model.Single Model.RVSplit
-  Model.Pipe Model.Sx Model.Main.
+  Model.Pipe Model.Toy Model.Sx Model.Main Model.ToyLex.
 From ArchSim Require Proofs.PipeInv Proofs.SchedDefs Proofs.FlagOffDwb.
 Open Scope Z_scope.
 
 Definition sx_zn (l : list (Z * nat)) : sx :=
   Lx (map (fun aw : Z * nat => Lx [Zx (fst aw); Zx (Z.of_nat (snd aw))]) l).
+
+Definition sx_toperand (o : toperand) : sx :=
+  match o with
+  | TAddrLit s => Lx [Zx 0; sx_zs s]
+  | TLabel l => Lx [Zx 1; Zx l]
+  | TNoOperand => Lx []
+  end.
+Definition sx_tline (p : Z * tline) : sx :=
+  let '(ln, t) := p in
+  match t with
+  | TLDirective d => Lx [Zx ln; Zx 0; Zx d]
+  | TLVar n vals => Lx [Zx ln; Zx 1; Zx n; Lx (map sx_zs vals)]
+  | TLInstr il op opnd => Lx [Zx ln; Zx 2; sx_opt Zx il; Zx op; sx_toperand opnd]
+  | TLLabel n => Lx [Zx ln; Zx 3; Zx n]
+  end.
 
 Definition dispatch_all (req : sx) : sx :=
   let op := dz (dnth req 0) in
@@ -31,4 +50,16 @@ Definition dispatch_all (req : sx) : sx :=
     Lx [ Zx (match e with Done => 0 | Faulted _ => 1 | OutOfFuel => 2 end);
          sx_st s';
          Lx (map Zx (FlagOffDwb.dwb_trace n s)) ]
+  else if op =? 90 then
+    let text := dzs (dnth req 1) in
+    Lx [ match toy_lex_text text with
+         | POk l => Lx (Zx 0 :: map sx_tline l)
+         | PErr (PSyntax ln) => Lx [Zx 1; Zx ln]
+         | PErr _ => Lx [Zx 2]
+         end;
+         sx_bool (toy_lex_domain text) ]
+  else if op =? 91 then
+    let s0 := dtstate (dnth req 1) in
+    let '(s1, e) := toy_load_text s0 (dzs (dnth req 2)) in
+    Lx [sx_opt sx_perr e; sx_tstate s1]
   else Main.dispatch req.
